@@ -61,6 +61,9 @@ def substrLen (s : Str) (offset length : Int) : Outcome Str :=
     if abs newLength > n ∨ newLength < offset then .ok []
     else substrEnd s offset newLength
   else substrEnd s offset (offset + length)
+  -- Go: `end = offset + length; if end < offset { end = len(str) }` — the guard fires exactly when the machine
+  -- addition wraps around (offset ≥ 0 ≤ length here), and then the exact sum exceeds `len(str)` and is clamped to it
+  -- by `substrEnd`: the unbounded sum of this model and the guarded machine sum select the same bytes.
 
 def substr (s : Str) (offset length : Int) : Outcome Str :=
   let n : Int := s.length
